@@ -431,10 +431,12 @@ func OP_MAP_LOAD_Handler(v *VM) {
 
 //goland:noinspection GoSnakeCaseUsage
 func OP_OBJ_LOAD_Handler(v *VM) {
-	idx, w := v.readMediumInt(v.pc)
+	name, w := v.readConst(v.pc)
 	v.pc += w
 	o := v.Pop().Obj()
-	v.Push(o.V[idx])
+	// 对象类型相等不考虑字段顺序, 所以必须按名称而不是静态类型的下标取值
+	vl, _ := o.Get(name.(string))
+	v.Push(vl)
 }
 
 //goland:noinspection GoSnakeCaseUsage
